@@ -22,17 +22,19 @@ KRoot == "kR"  KIca == "kI"  KNoc == "kN"  KOther == "kX"  KRoot2 == "kR2"
 
 BaseRoot == [type |-> "RCAC", key |-> KRoot, sigBy |-> KRoot, sigOk |-> TRUE, subj |-> "root", issuer |-> "root",
              skid |-> KRoot, akid |-> KRoot, nb |-> 1, na |-> 0, isCA |-> TRUE, pathLen |-> -1,
-             ku |-> {"keyCertSign", "crlSign"}, eku |-> {}, critExt |-> FALSE, nodeId |-> -1, fabricId |-> -1]
+             ku |-> {"keyCertSign", "crlSign"}, eku |-> {}, exts |-> <<>>, nodeId |-> -1, fabricId |-> -1]
 BaseIca  == [type |-> "ICAC", key |-> KIca, sigBy |-> KRoot, sigOk |-> TRUE, subj |-> "ica", issuer |-> "root",
              skid |-> KIca, akid |-> KRoot, nb |-> 1, na |-> 0, isCA |-> TRUE, pathLen |-> 0,
-             ku |-> {"keyCertSign", "crlSign"}, eku |-> {}, critExt |-> FALSE, nodeId |-> -1, fabricId |-> -1]
+             ku |-> {"keyCertSign", "crlSign"}, eku |-> {}, exts |-> <<>>, nodeId |-> -1, fabricId |-> -1]
 BaseNoc(parent) ==
             [type |-> "NOC", key |-> KNoc, sigBy |-> parent.key, sigOk |-> TRUE, subj |-> "node", issuer |-> parent.subj,
              skid |-> KNoc, akid |-> parent.key, nb |-> 1, na |-> 0, isCA |-> FALSE, pathLen |-> -1,
-             ku |-> {"digitalSignature"}, eku |-> {"serverAuth", "clientAuth"}, critExt |-> FALSE, nodeId |-> 7, fabricId |-> FAB]
+             ku |-> {"digitalSignature"}, eku |-> {"serverAuth", "clientAuth"}, exts |-> <<>>, nodeId |-> 7, fabricId |-> FAB]
 BaseChain(shape) == IF shape = 2 THEN <<BaseNoc(BaseRoot), BaseRoot>> ELSE <<BaseNoc(BaseIca), BaseIca, BaseRoot>>
 
 (* ---- the reference predicate ---- *)
+\* exts: the future-extensions elements of the certificate, each a sequence of X.509 extensions given by their critical flag
+CritExt(c) == \E x \in 1..Len(c.exts) : \E y \in 1..Len(c.exts[x]) : c.exts[x][y]
 TimeOk(c, ctx) == (c.na = 0 \/ ctx.now <= c.na) /\ (ctx.reliable => ctx.now >= c.nb)
 SignedBy(c, p) == c.sigOk /\ c.sigBy = p.key /\ c.issuer = p.subj /\ c.akid = p.skid
 LeafOk(c, ctx) == /\ c.type = "NOC" /\ ~c.isCA /\ "digitalSignature" \in c.ku
@@ -48,7 +50,7 @@ Valid(ch, ctx) ==
   /\ \A i \in 1..(n - 1) : SignedBy(ch[i], ch[i + 1])
   /\ SignedBy(root, root) /\ root.type = "RCAC"                    \* the chain ends in a self-signed root
   /\ \A i \in 2..(n - 1) : ~SignedBy(ch[i], ch[i]) /\ ch[i].akid # ch[i].skid /\ ch[i].type = "ICAC"   \* intermediates are not self-signed
-  /\ \A i \in 1..n : TimeOk(ch[i], ctx) /\ ~ch[i].critExt
+  /\ \A i \in 1..n : TimeOk(ch[i], ctx) /\ ~CritExt(ch[i])
   /\ LeafOk(ch[1], ctx)
   /\ \A i \in 2..n : AuthOk(ch[i], i)
   /\ (\A i \in 2..n : ch[i].fabricId = -1 \/ ctx.purpose # "case" \/ ch[i].fabricId = ctx.fabricId)
@@ -62,9 +64,13 @@ Muts == {"none", "nocSigBit", "icaSigBit", "rootSigBit", "nocIssuerName", "icaIs
          "icaNotCA", "icaNoCertSign", "rootNotCA", "rootNoCertSign", "rootPathLen0", "icaPathLen1",
          "nocCritExt", "icaCritExt", "nocNoNodeId", "nocNoFabricId", "nocOtherFabric", "icaOtherFabric",
          "rootInIcaSlot", "untrustedRoot", "swapNocIca", "nocAsAuthority", "icaRepeated",
-         "nocKeyNotCsr", "fabricExists", "fabricExistsReissuedRoot"}
+         "nocKeyNotCsr", "fabricExists", "fabricExistsReissuedRoot",
+         "rootCritExt", "nocBenignExt", "icaBenignExt", "nocCritExtSecondElement", "icaCritExtSecondElement", "rootCritExtThirdElement",
+         "nocCritExtSecondInElement", "nocIssuerEmpty", "nocIssuerExtraAttr", "icaIssuerEmpty", "icaIssuerExtraAttr",
+         "rootIssuerEmpty", "rootIssuerExtraAttr", "rootSubjectExtraAttr"}
 NeedsIca == {"icaSigBit", "icaIssuerName", "icaAkid", "icaExpired", "icaNotYet", "icaNotCA", "icaNoCertSign", "icaPathLen1",
-             "icaCritExt", "icaOtherFabric", "rootInIcaSlot", "swapNocIca", "icaRepeated", "rootPathLen0"}
+             "icaCritExt", "icaOtherFabric", "rootInIcaSlot", "swapNocIca", "icaRepeated", "rootPathLen0",
+             "icaBenignExt", "icaCritExtSecondElement", "icaIssuerEmpty", "icaIssuerExtraAttr"}
 Apply(ch, m) ==
   LET n == Len(ch) ica == IF n = 3 THEN 2 ELSE 1 IN
   CASE m = "none" -> ch
@@ -90,8 +96,24 @@ Apply(ch, m) ==
     [] m = "rootNoCertSign" -> [ch EXCEPT ![n].ku = {"crlSign"}]
     [] m = "rootPathLen0" -> [ch EXCEPT ![n].pathLen = 0]
     [] m = "icaPathLen1" -> [ch EXCEPT ![ica].pathLen = 1]
-    [] m = "nocCritExt" -> [ch EXCEPT ![1].critExt = TRUE]
-    [] m = "icaCritExt" -> [ch EXCEPT ![ica].critExt = TRUE]
+    [] m = "nocCritExt" -> [ch EXCEPT ![1].exts = << <<TRUE>> >>]
+    [] m = "icaCritExt" -> [ch EXCEPT ![ica].exts = << <<TRUE>> >>]
+    [] m = "rootCritExt" -> [ch EXCEPT ![n].exts = << <<TRUE>> >>]
+    \* an unknown extension that is not critical is no reason to refuse; a critical one anywhere is
+    [] m = "nocBenignExt" -> [ch EXCEPT ![1].exts = << <<FALSE>> >>]
+    [] m = "icaBenignExt" -> [ch EXCEPT ![ica].exts = << <<FALSE>>, <<FALSE>> >>]
+    [] m = "nocCritExtSecondElement" -> [ch EXCEPT ![1].exts = << <<FALSE>>, <<TRUE>> >>]
+    [] m = "icaCritExtSecondElement" -> [ch EXCEPT ![ica].exts = << <<FALSE>>, <<TRUE>> >>]
+    [] m = "rootCritExtThirdElement" -> [ch EXCEPT ![n].exts = << <<FALSE>>, <<FALSE>>, <<TRUE>> >>]
+    [] m = "nocCritExtSecondInElement" -> [ch EXCEPT ![1].exts = << <<FALSE, TRUE>> >>]
+    \* names that differ from the parent's subject only in the number of attributes
+    [] m = "nocIssuerEmpty" -> [ch EXCEPT ![1].issuer = "empty"]
+    [] m = "nocIssuerExtraAttr" -> [ch EXCEPT ![1].issuer = "issuer+x"]
+    [] m = "icaIssuerEmpty" -> [ch EXCEPT ![ica].issuer = "empty"]
+    [] m = "icaIssuerExtraAttr" -> [ch EXCEPT ![ica].issuer = "issuer+x"]
+    [] m = "rootIssuerEmpty" -> [ch EXCEPT ![n].issuer = "empty"]
+    [] m = "rootIssuerExtraAttr" -> [ch EXCEPT ![n].issuer = "issuer+x"]
+    [] m = "rootSubjectExtraAttr" -> [ch EXCEPT ![n].subj = "root+x"]      \* the root's own subject longer than its issuer (and than what it issued names)
     [] m = "nocNoNodeId" -> [ch EXCEPT ![1].nodeId = -1, ![1].type = "none"]
     [] m = "nocNoFabricId" -> [ch EXCEPT ![1].fabricId = -1]
     [] m = "nocOtherFabric" -> [ch EXCEPT ![1].fabricId = FAB + 1]
@@ -144,5 +166,6 @@ BaseValid == (case.m1 = "none" /\ case.m2 = "none") => case.valid
 MutInvalid == (case.m1 # "none" /\ case.m2 = "none" /\ ~(case.m1 \in {"nocNotYet", "icaNotYet"} /\ ~case.reliable)
                /\ ~(case.m1 \in {"nocOtherFabric", "icaOtherFabric", "untrustedRoot", "nocNoFabricId"} /\ case.purpose = "verify")
                /\ ~(case.m1 \in {"nocOtherFabric", "icaOtherFabric", "untrustedRoot"} /\ case.purpose = "addnoc")
-               /\ case.m1 # "icaPathLen1") => ~case.valid
+               /\ case.m1 \notin {"icaPathLen1", "nocBenignExt", "icaBenignExt"}) => ~case.valid
+Benign == (case.m1 \in {"nocBenignExt", "icaBenignExt"} /\ case.m2 = "none") => case.valid
 =============================================================================
